@@ -41,7 +41,7 @@ class Recorder:
         def show_buttons(I_, net, **k):
             rec.events.append(("show_buttons", k.get("filter_")))
 
-        net = ExtV("pyvis.Network", methods={"add_node": add_node, "add_edge": add_edge, "show_buttons": show_buttons, "__strict__": True}, attrs={"directed": False})
+        net = ExtV("pyvis.Network", methods={"add_node": add_node, "add_edge": add_edge, "show_buttons": show_buttons, "__strict__": True}, attrs={"directed": bool(I.truth(kw.get("directed", False)))})      # pyvis.Network(directed=...) sets the attribute
         net.kwargs = kw
         rec.net = net
         return net
@@ -66,8 +66,10 @@ def run(ctx):
     pairs = [(("DirectedEdge", "ab"), ("DirectedEdge", "ab")), (("DirectedEdge", "ab"), ("DirectedEdge", "ba")), (("DirectedEdge", "ab"), ("UnDirectedEdge", "ab")),
              (("UnDirectedEdge", "ba"), ("DirectedEdge", "aa")), (("SymTwo", "ab"), ("DirectedEdge", "ac")), (("DirectedEdge", "aa"), ("DirectedEdge", "bb"))]
     for links in singles + pairs:
-        for stale, cbs in itertools.product((None, 0, 1, 7, "equal-to-member", "falsy-vertices"), (False, True)):
-            if stale not in (None, "falsy-vertices") and not any("c" in e for _, e in links):
+        for stale, cbs in itertools.product((None, 0, 1, 7, "equal-to-member", "falsy-vertices", "network-kwargs-directed", "class-level-names-as-user-attributes"), (False, True)):
+            if stale not in (None, "falsy-vertices", "network-kwargs-directed", "class-level-names-as-user-attributes") and not any("c" in e for _, e in links):
+                continue
+            if stale == "class-level-names-as-user-attributes" and not class_level_names(h):
                 continue
             try:
                 why, sample = evaluate(h, rec, fn, links, stale, cbs)
@@ -120,8 +122,31 @@ def run(ctx):
     res.explanation = "For every class of link position/kind the calls made into pyvis are exactly the specified node and edge events."
 
 
+def class_level_names(h):
+    """public class-level data attributes of the link classes (not methods, properties or dunders): a user attribute of the same
+    name, given through attributes=, shadows them on that one object"""
+    from sa.ae import ClassV, Func
+    out = []
+    for cn in ("BaseObject", "Link", "TwoEndedLink", "DirectedEdge", "UnDirectedEdge"):
+        c = h.S.get(cn)
+        if not isinstance(c, ClassV):
+            continue
+        for k, v in c.dict.items():
+            if k.startswith("_") or k in out:
+                continue
+            if isinstance(v, (Func, ClassV, Builtin)) or type(v).__name__ in ("PropertyV", "Property", "StaticV", "ClassMethodV", "Descr") or hasattr(v, "fget"):
+                continue
+            if isinstance(v, (bool, int, str, float, type(None))) or isinstance(v, (Seq, DictV)):
+                out.append(k)
+    return out
+
+
 def evaluate(h, rec, fn, links, stale, cbs):
     h.reset()
+    kwargs_directed = stale == "network-kwargs-directed"
+    shadow = class_level_names(h) if stale == "class-level-names-as-user-attributes" else []
+    if kwargs_directed or stale == "class-level-names-as-user-attributes":
+        stale = None
     if stale == "equal-to-member":
         # user vertex class with value equality: the outside vertex c compares equal to the member b
         V = {n: h.I.call(h.sym["EqVert"], [{"a": 1, "b": 2, "c": 2}[n]], {}) for n in "abc"}
@@ -136,7 +161,11 @@ def evaluate(h, rec, fn, links, stale, cbs):
     V["N"] = None
     L = []
     for i, (k, e) in enumerate(links):
-        L.append(h.new(k, f"L{i}", V[e[0]], V[e[1]]))
+        if shadow:
+            # a falsy value on directed links, a truthy one on the others: whichever way the class-level name is read, it misleads
+            L.append(h.new(k, f"L{i}", V[e[0]], V[e[1]], attributes=DictV([[nm, 0 if KINDS[k] else "no"] for nm in shadow])))
+        else:
+            L.append(h.new(k, f"L{i}", V[e[0]], V[e[1]]))
     U = h.new("Universe", "U", vertices=Seq([V["a"], V["b"]], "list"))
     if stale is not None:
         V["c"].fields["__make_pyvis_net_i"] = stale
@@ -144,8 +173,8 @@ def evaluate(h, rec, fn, links, stale, cbs):
     rec.events, rec.nodes = [], []
     rv = Callback("rvfunc", lambda I, k, a, kw: mkstr([SAtom("Label", a[0])])) if cbs else None
     re_ = Callback("refunc", lambda I, k, a, kw: mkstr([SAtom("Title", a[0])])) if cbs else None
-    out = h.call(fn, U, rv, re_)
-    sample = {"links": [list(x) for x in links], "stale": stale, "callbacks": cbs, "events": [ev_str(e) for e in rec.events]}
+    out = h.call(fn, U, rv, re_, DictV([["directed", True], ["cdn_resources", "local"]])) if kwargs_directed else h.call(fn, U, rv, re_)
+    sample = {"links": [list(x) for x in links], "stale": stale, "callbacks": cbs, "events": [ev_str(e) for e in rec.events], "network_kwargs_directed": kwargs_directed, "user_attributes": shadow}
     if out.kind != "return":
         return f"raises {out.excname}", sample
     if out.value is not rec.net:
